@@ -129,6 +129,12 @@ def prefix_sid(tokeniser: Any) -> PrefixSid:  # noqa: C901
     except Exception as e:
         raise ValueError(f'could not parse BGP PrefixSid attribute: {e}') from None
 
+    if value != ']':
+        raise ValueError(
+            f"could not parse BGP PrefixSid attribute: expect '[', but received '{value}'\n"
+            '  Format: [ <label-index> ] or [ <label-index>, [ ( <base>,<range> ) ] ]'
+        )
+
     if not 0 <= int(label_sid) < pow(2, 32):
         raise ValueError(f'could not parse BGP PrefixSid attribute: label index {label_sid} is not a 32 bits number')
     sr_attrs.append(SrLabelIndex.make_labelindex(int(label_sid)))
@@ -151,11 +157,11 @@ def prefix_sid(tokeniser: Any) -> PrefixSid:  # noqa: C901
 def prefix_sid_srv6(tokeniser: Any) -> PrefixSid:
     value = tokeniser()
     if value != '(':
-        raise Exception(f"expect '(', but received '{value}'")
+        raise ValueError(f"expect '(', but received '{value}'")
 
     service_type = tokeniser()
     if service_type not in ['l3-service', 'l2-service']:
-        raise Exception(f"expect 'l3-service' or 'l2-service', but received '{value}'")
+        raise ValueError(f"expect 'l3-service' or 'l2-service', but received '{value}'")
 
     sid = IPv6.unpack_ipv6(IPv6.pton(tokeniser()))
     behavior = 0xFFFF
@@ -172,14 +178,14 @@ def prefix_sid_srv6(tokeniser: Any) -> PrefixSid:
                 if i != 0:
                     value = tokeniser()
                     if value != ',':
-                        raise Exception(f"expect ',', but received '{value}'")
+                        raise ValueError(f"expect ',', but received '{value}'")
                 value = tokeniser()
                 base = 10 if not value.startswith('0x') else 16
                 values.append(int(value, base))
 
             value = tokeniser()
             if value != ']':
-                raise Exception(f"expect ']', but received '{value}'")
+                raise ValueError(f"expect ']', but received '{value}'")
 
             value = tokeniser()
 
@@ -196,7 +202,7 @@ def prefix_sid_srv6(tokeniser: Any) -> PrefixSid:
     )
 
     if value != ')':
-        raise Exception(f"expect ')', but received '{value}'")
+        raise ValueError(f"expect ')', but received '{value}'")
 
     if service_type == 'l3-service':
         return PrefixSid([Srv6L3Service(subtlvs=subtlvs)])
@@ -207,10 +213,10 @@ def prefix_sid_srv6(tokeniser: Any) -> PrefixSid:
 def parse_ip_prefix(tokeninser: str) -> tuple[IPv4 | IPv6, int]:
     addrstr, length = tokeninser.split('/')
     if length is None:
-        raise Exception(f"unexpect prefix format '{tokeninser}'")
+        raise ValueError(f"unexpect prefix format '{tokeninser}'")
 
     if not length.isdigit():
-        raise Exception(f"unexpect prefix format '{tokeninser}'")
+        raise ValueError(f"unexpect prefix format '{tokeninser}'")
 
     addr = ip_address(addrstr)
     ip: IPv4 | IPv6
@@ -219,7 +225,7 @@ def parse_ip_prefix(tokeninser: str) -> tuple[IPv4 | IPv6, int]:
     elif isinstance(addr, IPv6Address):
         ip = IPv6.unpack_ipv6(IPv6.pton(addrstr))
     else:
-        raise Exception(f"unexpect ipaddress format '{addrstr}'")
+        raise ValueError(f"unexpect ipaddress format '{addrstr}'")
     return ip, int(length)
 
 
@@ -238,7 +244,7 @@ def mvpn_sharedjoin(tokeniser: Any, afi: AFI, action: Any) -> SharedJoin:
         tokeniser.consume('group')
         groupip = IPv6.unpack_ipv6(IPv6.pton(tokeniser()))
     else:
-        raise Exception(f'unexpect afi: {afi}')
+        raise ValueError(f'unexpect afi: {afi}')
 
     tokeniser.consume('rd')
     rd = route_distinguisher(tokeniser)
@@ -246,10 +252,10 @@ def mvpn_sharedjoin(tokeniser: Any, afi: AFI, action: Any) -> SharedJoin:
     tokeniser.consume('source-as')
     value = tokeniser()
     if not value.isdigit():
-        raise Exception(f"expect source-as to be a integer in the range 0-{ASN_MAX_VALUE}, but received '{value}'")
+        raise ValueError(f"expect source-as to be a integer in the range 0-{ASN_MAX_VALUE}, but received '{value}'")
     asnum = int(value)
     if asnum > ASN_MAX_VALUE:
-        raise Exception(f"expect source-as to be a integer in the range 0-{ASN_MAX_VALUE}, but received '{value}'")
+        raise ValueError(f"expect source-as to be a integer in the range 0-{ASN_MAX_VALUE}, but received '{value}'")
 
     nlri = SharedJoin.make_sharedjoin(rd=rd, afi=afi, source=sourceip, group=groupip, source_as=asnum)
     return nlri
@@ -270,7 +276,7 @@ def mvpn_sourcejoin(tokeniser: Any, afi: AFI, action: Any) -> SourceJoin:
         tokeniser.consume('group')
         groupip = IPv6.unpack_ipv6(IPv6.pton(tokeniser()))
     else:
-        raise Exception(f'unexpect afi: {afi}')
+        raise ValueError(f'unexpect afi: {afi}')
 
     tokeniser.consume('rd')
     rd = route_distinguisher(tokeniser)
@@ -278,10 +284,10 @@ def mvpn_sourcejoin(tokeniser: Any, afi: AFI, action: Any) -> SourceJoin:
     tokeniser.consume('source-as')
     value = tokeniser()
     if not value.isdigit():
-        raise Exception(f"expect source-as to be a integer in the range 0-{ASN_MAX_VALUE}, but received '{value}'")
+        raise ValueError(f"expect source-as to be a integer in the range 0-{ASN_MAX_VALUE}, but received '{value}'")
     asnum = int(value)
     if asnum > ASN_MAX_VALUE:
-        raise Exception(f"expect source-as to be a integer in the range 0-{ASN_MAX_VALUE}, but received '{value}'")
+        raise ValueError(f"expect source-as to be a integer in the range 0-{ASN_MAX_VALUE}, but received '{value}'")
 
     nlri = SourceJoin.make_sourcejoin(rd=rd, afi=afi, source=sourceip, group=groupip, source_as=asnum)
     return nlri
@@ -302,7 +308,7 @@ def mvpn_sourcead(tokeniser: Any, afi: AFI, action: Any) -> SourceAD:
         tokeniser.consume('group')
         groupip = IPv6.unpack_ipv6(IPv6.pton(tokeniser()))
     else:
-        raise Exception(f'unexpect afi: {afi}')
+        raise ValueError(f'unexpect afi: {afi}')
 
     tokeniser.consume('rd')
     rd = route_distinguisher(tokeniser)
@@ -317,7 +323,7 @@ def srv6_mup_isd(tokeniser: Any, afi: AFI) -> InterworkSegmentDiscoveryRoute:
 
     value = tokeniser()
     if value != 'rd':
-        raise Exception(f"expect rd, but received '{value}'")
+        raise ValueError(f"expect rd, but received '{value}'")
     rd = route_distinguisher(tokeniser)
 
     return InterworkSegmentDiscoveryRoute.make_isd(
@@ -336,11 +342,11 @@ def srv6_mup_dsd(tokeniser: Any, afi: AFI) -> DirectSegmentDiscoveryRoute:
     elif afi == AFI.ipv6:
         ip = IPv6.unpack_ipv6(IPv6.pton(tokeniser()))
     else:
-        raise Exception(f'unexpect afi: {afi}')
+        raise ValueError(f'unexpect afi: {afi}')
 
     value = tokeniser()
     if value != 'rd':
-        raise Exception(f"expect rd, but received '{value}'")
+        raise ValueError(f"expect rd, but received '{value}'")
     rd = route_distinguisher(tokeniser)
 
     return DirectSegmentDiscoveryRoute.make_dsd(
@@ -386,7 +392,7 @@ def srv6_mup_t1st(tokeniser: Any, afi: AFI) -> Type1SessionTransformedRoute:
     elif afi == AFI.ipv6:
         endpoint_ip = IPv6.unpack_ipv6(IPv6.pton(tokeniser()))
     else:
-        raise Exception(f'unexpect afi: {afi}')
+        raise ValueError(f'unexpect afi: {afi}')
 
     source_ip_len = 0
     source_ip: bytes | IPv4 | IPv6 = b''
@@ -399,7 +405,7 @@ def srv6_mup_t1st(tokeniser: Any, afi: AFI) -> Type1SessionTransformedRoute:
             source_ip = IPv6.unpack_ipv6(IPv6.pton(tokeniser()))
             source_ip_len = 128
         else:
-            raise Exception(f'unexpect afi: {afi}')
+            raise ValueError(f'unexpect afi: {afi}')
 
     return Type1SessionTransformedRoute.make_t1st(
         rd=rd,
